@@ -41,9 +41,11 @@ mutual
     | vec (vs : ValList)
     | struct (vs : ValList)
     | enum (tag : Nat) (vs : ValList)
+    deriving DecidableEq
   inductive ValList
     | nil
     | cons (v : Val) (t : ValList)
+    deriving DecidableEq
 end
 
 def ValList.len : ValList → Nat
